@@ -478,6 +478,11 @@ func (c *checker) oneRun(r runSpec, pool *solver.Pool, dump string) int {
 			}
 		}
 		for _, e := range ex.Events {
+			if e.Kind == "publish" {
+				delete(created, e.Obj) // stored into a package variable: a shared generator created lazily, not a private one
+			}
+		}
+		for _, e := range ex.Events {
 			if e.Kind != "draw" || !created[e.Obj] {
 				continue
 			}
